@@ -262,7 +262,7 @@ func checkC12(c *Ctx) {
 		var buf bytes.Buffer
 		w, err := age.Encrypt(&buf, pty.rcpt)
 		if err == nil {
-			_, err = io.Copy(w, io.MultiReader(bytes.NewReader(plain))) // MultiReader: no WriteTo
+			_, err = io.Copy(w, struct{ io.Reader }{bytes.NewReader(plain)}) // a source with Read only: io.Copy will use a ReaderFrom of the destination if there is one
 			if err == nil {
 				err = w.Close()
 			}
